@@ -83,20 +83,20 @@ theorem postEncodeNames_idx (tbl : List GName) (ns : List GName) (k : Nat)
       · exact this.2 i hi
 
 theorem postReadNames_encode (tbl : List GName) (ns : List GName) (custom : List GName)
-    (hname : ∀ n ∈ ns, n.length ≤ 255) :
+    (hname : ∀ n ∈ ns, macIdx tbl n = none → n.length ≤ 255) :
     postReadNames tbl (postEncodeNames tbl ns custom.length).1 custom
       (postEncodeNames tbl ns custom.length).2 = some ns := by
   induction ns generalizing custom with
   | nil => simp [postEncodeNames, postReadNames]
   | cons n rest ih =>
-    have hrest : ∀ m ∈ rest, m.length ≤ 255 := fun x hx => hname x (List.mem_cons_of_mem _ hx)
+    have hrest : ∀ m ∈ rest, macIdx tbl m = none → m.length ≤ 255 := fun x hx => hname x (List.mem_cons_of_mem _ hx)
     unfold postEncodeNames
     split
     · next j hj =>
       have hj' := macIdx_some hj
       simp only [postReadNames, hj'.1, if_true, ih custom hrest, hj'.2]
     · next hn =>
-      have hl : n.length % 256 = n.length := Nat.mod_eq_of_lt (by have := hname n List.mem_cons_self; omega)
+      have hl : n.length % 256 = n.length := Nat.mod_eq_of_lt (by have := hname n List.mem_cons_self hn; omega)
       have ih' := ih (custom ++ [n]) hrest
       simp only [List.length_append, List.length_singleton] at ih'
       simp only [postReadNames, Nat.not_lt.mpr (Nat.le_add_right _ _), if_false,
@@ -139,8 +139,8 @@ theorem postHeader_read (tbl : List GName) (v : Nat) (h : PostHdr) (body : List 
 /-- header fields are bit patterns of the widths the table stores -/
 def PostHdr.InRange (h : PostHdr) : Prop := h.angle < 4294967296 ∧ h.upos < 65536 ∧ h.uthick < 65536
 
-theorem post_roundtrip_with (tbl : List GName) (h : PostHdr) (hr : h.InRange) (ns : List GName)
-    (hlen : ns.length ≤ 65535) (hname : ∀ n ∈ ns, n.length ≤ 255)
+theorem post_roundtrip_custom (tbl : List GName) (h : PostHdr) (hr : h.InRange) (ns : List GName)
+    (hlen : ns.length ≤ 65535) (hname : ∀ n ∈ ns, macIdx tbl n = none → n.length ≤ 255)
     (hcap : tbl.length + customCount tbl ns ≤ 65536) :
     postReadWith tbl (postEncodeWith tbl h (some ns)) = .ok h (some ns) := by
   unfold postEncodeWith
@@ -163,6 +163,13 @@ theorem post_roundtrip_with (tbl : List GName) (h : PostHdr) (hr : h.InRange) (n
     simp only [List.length_nil] at h3
     rw [h3]
 
+theorem post_roundtrip_with (tbl : List GName) (h : PostHdr) (hr : h.InRange) (ns : List GName)
+    (hlen : ns.length ≤ 65535) (hname : ∀ n ∈ ns, n.length ≤ 255)
+    (hcap : tbl.length + customCount tbl ns ≤ 65536) :
+    postReadWith tbl (postEncodeWith tbl h (some ns)) = .ok h (some ns) :=
+  post_roundtrip_custom tbl h hr ns hlen (fun n hn _ => hname n hn) hcap
+
+
 theorem post_roundtrip_nil (tbl : List GName) (h : PostHdr) (hr : h.InRange) :
     postReadWith tbl (postEncodeWith tbl h none) = .ok h none := by
   unfold postEncodeWith
@@ -173,5 +180,63 @@ theorem post_roundtrip_nil (tbl : List GName) (h : PostHdr) (hr : h.InRange) :
 theorem post_format1 (tbl : List GName) (h : PostHdr) :
     postEncodeWith tbl h (some tbl) = postHeader 0x00010000 h := by
   simp [postEncodeWith]
+
+/-! ### the checked encoder -/
+
+theorem postFits_iff (tbl ns : List GName) :
+    postFits tbl ns = true ↔
+      ns.length ≤ 65535 ∧ (∀ n ∈ ns, macIdx tbl n = none → n.length ≤ 255) ∧
+        tbl.length + customCount tbl ns ≤ 65536 := by
+  unfold postFits postCustom customCount
+  simp only [Bool.and_eq_true, decide_eq_true_eq, List.all_eq_true, List.mem_filter, Option.isNone_iff_eq_none,
+    and_imp]
+  constructor
+  · rintro ⟨⟨h1, h2⟩, h3⟩; exact ⟨h1, h2, h3⟩
+  · rintro ⟨h1, h2, h3⟩; exact ⟨⟨h1, h2⟩, h3⟩
+
+/-- the checked encoder returns bytes exactly when the list is the standard list or fits the
+format, and then they are the bytes of `postEncodeWith` -/
+theorem postEncodeChecked_ok_iff (tbl : List GName) (h : PostHdr) (ns : List GName) (b : List Nat) :
+    postEncodeCheckedWith tbl h (some ns) = .ok b ↔
+      (ns = tbl ∨ postFits tbl ns = true) ∧ b = postEncodeWith tbl h (some ns) := by
+  unfold postEncodeCheckedWith
+  by_cases h1 : ns = tbl
+  · simp only [h1, if_true, Outcome.ok.injEq, true_or, true_and]
+    exact eq_comm
+  · by_cases h2 : postFits tbl ns = true
+    · simp only [h1, h2, if_false, if_true, Outcome.ok.injEq, or_true, true_and]
+      exact eq_comm
+    · have h3 : postFits tbl ns = false := by
+        cases hh : postFits tbl ns with
+        | true => exact absurd hh h2
+        | false => rfl
+      simp only [h1, h3, if_false]
+      constructor
+      · intro h'; cases h'
+      · rintro ⟨h' | h', _⟩
+        · exact h'.elim
+        · cases h'
+
+/-- **no silent loss**: for every name list (any length, any names) the encoder either refuses
+loudly or writes a table from which the reader returns the header fields and the list unchanged -/
+theorem post_checked_roundtrip (tbl : List GName) (h : PostHdr) (hr : h.InRange)
+    (names : Option (List GName)) :
+    (∃ s, postEncodeCheckedWith tbl h names = .panic s) ∨
+    (∃ b, postEncodeCheckedWith tbl h names = .ok b ∧ postReadWith tbl b = .ok h names) := by
+  cases names with
+  | none => exact Or.inr ⟨_, rfl, post_roundtrip_nil tbl h hr⟩
+  | some ns =>
+    unfold postEncodeCheckedWith
+    by_cases h1 : ns = tbl
+    · subst h1
+      refine Or.inr ⟨postEncodeWith ns h (some ns), by simp, ?_⟩
+      rw [post_format1]
+      have := postHeader_read ns 0x00010000 h [] (by omega) hr.1 hr.2.1 hr.2.2
+      simp only [List.append_nil] at this
+      rw [this]; simp
+    · by_cases h2 : postFits tbl ns = true
+      · obtain ⟨a, b', c⟩ := (postFits_iff tbl ns).mp h2
+        exact Or.inr ⟨postEncodeWith tbl h (some ns), by simp [h1, h2], post_roundtrip_custom tbl h hr ns a b' c⟩
+      · exact Or.inl ⟨"post.Encode", by simp [h1, h2]⟩
 
 end SfntV.Names
